@@ -116,12 +116,30 @@ func DeliverUnicast[M any](ids []ID, out map[ID]ds.Map[ID, M]) Delivered[M] {
 // ---------------------------------------------------------------------------------------------------------------
 // Gennaro
 
+// PerPartyAC carries one access-structure OBJECT per party (parties are separate processes: each builds its own object
+// from its own listing of the agreed structure). The embedded object is the dealer's / the default one.
+type PerPartyAC struct {
+	accessstructures.Monotone
+	By map[ID]accessstructures.Monotone
+}
+
+// ACFor: the object party id works with.
+func ACFor(ac accessstructures.Monotone, id ID) accessstructures.Monotone {
+	if pp, ok := ac.(*PerPartyAC); ok {
+		if a, ok := pp.By[id]; ok {
+			return a
+		}
+		return pp.Monotone
+	}
+	return ac
+}
+
 // GennaroRounds runs the three Gennaro rounds of all parties in process.
 func GennaroRounds[E algebra.PrimeGroupElement[E, S], S algebra.PrimeFieldElement[S]](ids []ID, ac accessstructures.Monotone, group algebra.PrimeGroup[E, S], nic compiler.Name, seed int64) (map[ID]*mpc.BaseShard[E, S], error) {
 	ctxs := Contexts(ids, seed, "gennaro")
 	ps := map[ID]*gennaro.Participant[E, S]{}
 	for _, id := range ids {
-		p, err := gennaro.NewParticipant(ctxs[id], group, ac, nic, det.New(seed, fmt.Sprintf("gennaro/%d", id)))
+		p, err := gennaro.NewParticipant(ctxs[id], group, ACFor(ac, id), nic, det.New(seed, fmt.Sprintf("gennaro/%d", id)))
 		if err != nil {
 			return nil, fmt.Errorf("NewParticipant(%d): %w", id, err)
 		}
@@ -161,7 +179,7 @@ func GennaroRounds[E algebra.PrimeGroupElement[E, S], S algebra.PrimeFieldElemen
 func GennaroRun[E algebra.PrimeGroupElement[E, S], S algebra.PrimeFieldElement[S]](x mcrt.Chooser, net *schednet.Net, ids []ID, ac accessstructures.Monotone, group algebra.PrimeGroup[E, S], nic compiler.Name, seed int64) (map[ID]*schednet.Result[*mpc.BaseShard[E, S]], *schednet.Info) {
 	ctxs := Contexts(ids, seed, "gennaro")
 	return schednet.RunAll(x, net, ids, func(ctx context.Context, id ID, rt *network.Router) (*mpc.BaseShard[E, S], error) {
-		r, err := gennaro.NewRunner(ctxs[id], group, ac, nic, det.New(seed, fmt.Sprintf("gennaro/%d", id)))
+		r, err := gennaro.NewRunner(ctxs[id], group, ACFor(ac, id), nic, det.New(seed, fmt.Sprintf("gennaro/%d", id)))
 		if err != nil {
 			return nil, err
 		}
@@ -177,7 +195,7 @@ func CanettiRounds[E algebra.PrimeGroupElement[E, S], S algebra.PrimeFieldElemen
 	ctxs := Contexts(ids, seed, "canetti")
 	ps := map[ID]*canetti.Participant[E, S]{}
 	for _, id := range ids {
-		p, err := canetti.NewParticipant(ctxs[id], ac, group, det.New(seed, fmt.Sprintf("canetti/%d", id)))
+		p, err := canetti.NewParticipant(ctxs[id], ACFor(ac, id), group, det.New(seed, fmt.Sprintf("canetti/%d", id)))
 		if err != nil {
 			return nil, fmt.Errorf("NewParticipant(%d): %w", id, err)
 		}
@@ -226,7 +244,7 @@ func CanettiRounds[E algebra.PrimeGroupElement[E, S], S algebra.PrimeFieldElemen
 func CanettiRun[E algebra.PrimeGroupElement[E, S], S algebra.PrimeFieldElement[S]](x mcrt.Chooser, net *schednet.Net, ids []ID, ac accessstructures.Monotone, group algebra.PrimeGroup[E, S], seed int64) (map[ID]*schednet.Result[*mpc.BaseShard[E, S]], *schednet.Info) {
 	ctxs := Contexts(ids, seed, "canetti")
 	return schednet.RunAll(x, net, ids, func(ctx context.Context, id ID, rt *network.Router) (*mpc.BaseShard[E, S], error) {
-		r, err := canetti.NewRunner(ctxs[id], ac, group, det.New(seed, fmt.Sprintf("canetti/%d", id)))
+		r, err := canetti.NewRunner(ctxs[id], ACFor(ac, id), group, det.New(seed, fmt.Sprintf("canetti/%d", id)))
 		if err != nil {
 			return nil, err
 		}
@@ -239,7 +257,7 @@ func CanettiRun[E algebra.PrimeGroupElement[E, S], S algebra.PrimeFieldElement[S
 
 // Deal runs the generic trusted dealer.
 func Deal[E algebra.PrimeGroupElement[E, S], S algebra.PrimeFieldElement[S]](group algebra.PrimeGroup[E, S], ac accessstructures.Monotone, seed int64, label string) (map[ID]*mpc.BaseShard[E, S], error) {
-	m, err := trusteddealer.Deal(group, ac, det.New(seed, "deal/"+label))
+	m, err := trusteddealer.Deal(group, ACFor(ac, 0), det.New(seed, "deal/"+label))
 	if err != nil {
 		return nil, err
 	}
